@@ -9,6 +9,8 @@ deviation flags play no role, `Quirks.spec`/`Quirks.asis` appear where they do.
 import RsassModel.Dest.Lemmas
 import RsassModel.Dest.Refine
 import RsassModel.Dest.RefineLost
+import RsassModel.Dest.LemmasMerge
+import RsassModel.Dest.Text
 namespace C20
 open Dest
 variable {σ : Type}
@@ -261,6 +263,59 @@ theorem bubble_preserves_order_now (ops : Ops σ) (p : List (Core σ)) (st : St 
 theorem atroot_decl_now_rejected (ops : Ops σ) (c : SelCtx σ) (n v : σ) (rest : List (Core σ)) (st : St σ) :
     emitItem Quirks.now ops c (.atroot none (.decl n v :: rest)) st = .error .declInAtRoot := by
   simp [emitItem, emitBody, Quirks.now]
+
+/-! ### The FULL specification, media merging included -/
+
+/-- `bubble_preserves_order_spec` — the specification with every deviation off, in particular
+`@media` inside (rules inside) `@media` bubbling to the top level with MERGED queries, any depth
+of rules and of media nesting, arbitrary programs, every selector algebra whose query conjunction
+is associative: a successful run's flattened output equals the evaluation log once adjacent
+`@media` steps of each entry's at-rule path are merged (`normPath`): nothing lost, nothing
+added, source order, right selector, and the bubbled declarations sit under the merged query. -/
+theorem bubble_preserves_order_spec (ops : Ops σ) (hassoc : Assoc ops) (p : List (Core σ)) (st : St σ)
+    (h : emitTop Quirks.spec ops p = .ok st) :
+    NV ops (flatItems [] st.root) = NV ops (logBody Quirks.spec ops {} p []) ∧ st.stack = [] := by
+  obtain ⟨hv, hk⟩ := emitBody_merge Quirks.spec rfl rfl ops hassoc {} p {} st h
+  have hnil : st.stack = [] := by
+    cases hst : st.stack with
+    | nil => rfl
+    | cons f r => rw [hst] at hk; simp [skel] at hk
+  refine ⟨?_, hnil⟩
+  simpa [view, hnil, viewStack, skel, flatItems] using hv
+
+/-- the general form: any flags with order-preserving at-rule frames and `Drop` errors as errors
+(so also `Quirks.now`), from any state with any open frames -/
+theorem emit_refines_log_merge (q : Quirks) (hh : q.atRuleHoists = false) (hs : q.closeSwallows = false)
+    (ops : Ops σ) (hassoc : Assoc ops) (c : SelCtx σ) (b : List (Core σ)) (st st' : St σ)
+    (h : emitBody q ops c b st = .ok st') :
+    NV ops (view st'.stack st'.root) = NV ops (view st.stack st.root ++ logBody q ops c b (skel st.stack)) ∧
+      skel st'.stack = skel st.stack :=
+  emitBody_merge q hh hs ops hassoc c b st st' h
+
+/-- the mechanism for ANY frame stack: handing items up, with bubbling and merging -/
+theorem deliver_keeps_order_merge (q : Quirks) (hh : q.atRuleHoists = false) (ops : Ops σ) (hassoc : Assoc ops)
+    (stk : List (Frame σ)) (root its : List (Item σ)) (stk' : List (Frame σ)) (root' : List (Item σ))
+    (h : deliver q ops stk root its = .ok (stk', root')) :
+    NV ops (view stk' root') = NV ops (view stk root ++ flatItems (pathOf stk) its) ∧ skel stk' = skel stk :=
+  deliver_view_merge q hh ops hassoc stk root its stk' root' h
+
+/-- an algebra with associative conjunction for the witnesses -/
+def natOpsA : Ops Nat := { natOps with mergeMedia := fun a b => a + b }
+
+theorem natOpsA_assoc : Assoc natOpsA := fun a b c => Nat.add_assoc a b c
+
+/-- the driver's text algebra satisfies the hypothesis (`a ++ " and " ++ b`) -/
+theorem strOps_assoc (exact : Bool) : Assoc (strOps exact) := by
+  intro a b c
+  simp [strOps, String.append_assoc]
+
+/-- non-vacuity on a three-level program `@media 1 { 2 { 8: 8; @media 3 { 4 { @media 5 { 6: 7 } } } 9: 9 } }`:
+the output has three TOP-LEVEL media rules, the innermost declaration under the merged query
+`1+3+5`, and the normalised sequences coincide -/
+example : (match emitTop Quirks.spec natOpsA
+      [.media 1 [.rule 2 [.decl 8 8, .media 3 [.rule 4 [.media 5 [.decl 6 7]]], .decl 9 9]]] with
+    | .ok st => (flatItems [] st.root).map (fun e => (e.path, e.sel, e.item)) | .error _ => [])
+    = [([.media 1], some 2, .prop 8 8), ([.media 9], some 2004, .prop 6 7), ([.media 1], some 2, .prop 9 9)] := by rfl
 
 /-- the general form, from any state with any open frames (`Dest/Refine.lean`) -/
 theorem emit_refines_log (q : Quirks) (hh : q.atRuleHoists = false) (hm : q.mediaInMediaNested = true)
